@@ -74,4 +74,11 @@ can mention the template's `t`, `T`, `t0` or other placeholders goes through the
 renews them** — decided over the table extracted from `Stage.clone` as it is now -/
 theorem clone_table_ok : Generated.cloneTable.all entryOK = true := by decide
 
+/-- the substitution that renews the template's time placeholders in an instance maps each of `T`, `t0`, `t`, `DT`, `DT_control` to the
+instance's symbol OF THE SAME NAME (the chain of `Stage.clone` as it is now, regenerated on every run): an instance sees its own integrator
+step where the template wrote `DT` and its own control-interval length where the template wrote `DT_control` -/
+theorem clone_time_symbols_map_to_their_own :
+    Generated.cloneTimeSymbols.all (fun p => p.1 == p.2) = true ∧
+    ["T", "t0", "t", "DT", "DT_control"].all (fun n => Generated.cloneTimeSymbols.any (fun p => p.1 == n)) = true := by decide
+
 end Rockit.C12
